@@ -40,6 +40,8 @@ for pid, muts in allsets.items():
         if r.returncode != 0:
             print(f"RECIPE-NOBUILD {pid}/{name}: {r.stderr[:400]}"); bad += 1; continue
         d = subprocess.run(["diff", "-ruN", "a", "b"], cwd=scratch, capture_output=True, text=True).stdout
+        import re as _re
+        d = _re.sub(r"(?m)^((?:---|\+\+\+) [ab]/\S+)\t.*$", r"\1", d)  # drop timestamps: stable output
         os.makedirs(os.path.join(root, "mutants", pid), exist_ok=True)
         with open(os.path.join(root, "mutants", pid, name + ".diff"), "w") as f:
             f.write(f"# mutant {pid}/{name}: {m['what']}\n")
